@@ -399,14 +399,18 @@ def main(argv=None) -> int:
         for oracle, sig, lst in unlisted:
             print(f"  {oracle} | {sig} | {len(lst)}")
     reported = set()
+    t_shrink0 = time.time()
     max_report = int(os.environ.get("VERIF_MAX_REPORT", "6"))
     for oracle, sig, lst in unlisted[:max_report]:
         v, plan, out = min(lst, key=lambda x: len(json.dumps(x[1], default=str)) if x[1] else 10**9)
         if plan is None:
             harness_errors.append("violation without plan")
             continue
-        mplan, tried = minimise(engine_name, plan, oracle, known, prop,
-                                budget_s=float(os.environ.get("VERIF_SHRINK_S", "90")))
+        # minimisation budget: per class and overall (slow engines must not turn a red check into a stalled one)
+        spent = time.time() - t_shrink0
+        per_class = float(os.environ.get("VERIF_SHRINK_S", "60"))
+        total = float(os.environ.get("VERIF_SHRINK_TOTAL_S", "180"))
+        mplan, tried = minimise(engine_name, plan, oracle, known, prop, budget_s=max(0.0, min(per_class, total - spent)))
         r = _violates(engine_name, mplan, oracle, known, prop)
         if r is None:  # should not happen (minimise only accepts violating plans) -> keep original
             mplan = plan
